@@ -126,6 +126,7 @@ type Exec struct {
 	recInProgress  map[string]bool
 	recKeys        map[string][]string
 	usedLemmas     []string
+	revealOpaque   bool
 }
 
 type modLoc struct {
